@@ -250,6 +250,28 @@ Theorem C08_session_default : forall (A : Type) (build : key -> res A) ops dflt,
 Proof. intros A build ops dflt. apply run_session_cache_run. Qed.
 Print Assumptions C08_session_default.
 
+(* error path: an exception of the RuntimeError family raised by the open solver, or by the residual it evaluates
+   (InfeasibleRegion: the secant stepped to T <= 0 / P <= 0), never reaches the caller: the result is that of the bounded
+   solve over the object's [Tmin, Tmax] / [Pmin, Pmax]; every other exception propagates unchanged *)
+Theorem C08_fallback_taken : forall S f buf x0 x1 lo hi e b a c,
+  secant S f buf x0 x1 = SErr e b -> is_runtime e = true ->
+  f b lo = Ok a -> f (snd a) hi = Ok c ->
+  secant_or_iq S f buf x0 x1 lo hi = sres_res (iq S f (snd c) lo hi (fst a) (fst c) (Some x0)).
+Proof. exact fallback_taken_lemma. Qed.
+Print Assumptions C08_fallback_taken.
+Theorem C08_other_errors_escape : forall S f buf x0 x1 lo hi e b,
+  secant S f buf x0 x1 = SErr e b -> is_runtime e = false -> secant_or_iq S f buf x0 x1 lo hi = Err e.
+Proof. exact other_errors_escape_lemma. Qed.
+Print Assumptions C08_other_errors_escape.
+
+(* the domain an instance carries is that of the vapour-pressure correlations of the chemical OBJECTS it was built for
+   (two objects with the same ID but other correlations give other domains), and Pmin / Pmax bound their Psat at its ends *)
+Theorem C08_instance_domain : forall cs g pid ph pc k, new_pkg cs g pid ph pc = Ok k ->
+  chems k = cs /\ vle_domain cs = Ok (pTmin k, pTmax k) /\
+  (forall c, In c cs -> pPmin k <= c_psat c (pTmin k) /\ c_psat c (pTmax k) <= pPmax k).
+Proof. exact instance_domain_lemma. Qed.
+Print Assumptions C08_instance_domain.
+
 (* the residual kernels and the composition arguments, as translated from the current source of /repo by
    tr/C08_kernels.py (regenerated on every run), are the functions the theorems above are about *)
 Theorem C08_generated_kernels_agree :
